@@ -474,6 +474,63 @@ MANIFEST_TEXT["C16"] = {
     "design_ref": "DESIGN.md section 3 / C16",
 }
 
+def c08_post(pid, jobs, out_dir, save_violation):
+    """Cross-process determinism: every TestDigests shard ran the same seeded scenario list in its own process (own map
+    hash seeds, fresh lazily initialised globals); per-scenario digests must agree."""
+    import os
+    files = []
+    for j in jobs:
+        if j.test == "TestDigests" and j.rc == 0:
+            p = os.path.join(j.dir, "digests.txt")
+            if os.path.exists(p):
+                files.append((j.idx, [l.split() for l in open(p).read().splitlines() if l.strip()]))
+    violations, inconclusive, notes = [], [], []
+    if len(files) < 2:
+        return violations, (["fewer than two digest files to compare"] if any(j.test == "TestDigests" for j in jobs) else []), notes
+    ref_idx, ref = files[0]
+    compared = 0
+    for idx, lines in files[1:]:
+        if len(lines) != len(ref):
+            inconclusive.append("digest shard %d produced %d scenarios, shard %d produced %d" % (idx, len(lines), ref_idx, len(ref)))
+            continue
+        for a, b in zip(ref, lines):
+            if a[1] != b[1]:
+                inconclusive.append("digest shards %d and %d generated different scenarios at position %s (generator not deterministic?)" % (ref_idx, idx, a[0]))
+                break
+            compared += 1
+            if a[2] != b[2]:
+                dst = save_violation(pid, None, {"test": "TestDigests", "message": "cross-process digest mismatch", "case": {"position": a[0], "scenario_sha256": a[1], "digests": [a[2], b[2]], "rapid_seed": jobs[0].seed}})
+                violations.append(("scenario %s of the seeded list (sha256 %s) produced different output bytes in two fresh processes" % (a[0], a[1][:12]), dst))
+                break
+    notes.append("cross-process: %d processes, %d scenario digests compared" % (len(files), compared))
+    return violations, inconclusive, notes
+
+
+PLAN["C08"] = {
+    "pkg": "c08",
+    "tests": [
+        {"name": "TestDeterminism", "quick": (1600, 12), "thorough": (96000, 16)},
+        {"name": "TestDigests", "same_seed": True, "quick": (150, 4), "thorough": (4000, 8)},
+    ],
+    "post": c08_post,
+    "budget": {"quick": 600, "thorough": 5400},
+    "rule": SCENARIO_RULE + "Scenarios are biased to what map iteration can touch: translations in 2-3 languages, webhook header maps with "
+            "several templated entries, webhook bodies with case-variant keys, several results/fields/groups/globals, query groups, several "
+            "issue types on one node. Oracle: (a) in one process each scenario is executed 4 times with the sources reset and every event, "
+            "segment and session JSON must be byte-identical; Inspect(), ExtractTemplates, ExtractLocalizables, MigrateToLatest, Clone "
+            "(fixed mapping, seeded UUIDs), json.Marshal(flow) and ParseQuery(..).String() are each called 8 times and must return "
+            "identical bytes; (b) the same seeded scenario list is executed in 4 (thorough: 8) fresh processes (different map hash seeds) "
+            "and per-scenario SHA-256 digests of all outputs are compared by the driver. Non-trivial = >= 2 translation languages, a "
+            "header map, case-variant keys or >= 2 result names in the assets; distinct by (assets, trigger, steps).",
+    "assumptions": COMMON_ASSUMPTIONS + ["goroutine timing is not varied here (the engine is single-threaded per session; concurrency is C09)"],
+}
+MANIFEST_TEXT["C08"] = {
+    "technique": "property-based testing (rapid): metamorphic 'same input => same bytes' oracle, repeated in-process executions/calls plus cross-process digest comparison over a seeded scenario list",
+    "level_text": "Exploration: every generated scenario and every definition-level function produced byte-identical output across repeated executions in one process and across fresh processes.",
+    "level_note": "Nondeterminism that needs more repetitions than 4 executions / 8 calls / 4-8 processes to show can be missed; its probability falls geometrically with the repetition counts.",
+    "design_ref": "DESIGN.md section 3 / C08",
+}
+
 # every property without a registered check is listed here with the reason (kept current as checks are added)
 NOT_APPLICABLE = [{"property_id": pid, "reason": "check not built yet in this round (planned in DESIGN.md); nothing is claimed for it"}
                   for pid in ALL_IDS if pid not in PLAN]
